@@ -6,6 +6,8 @@ import (
 	"context"
 	"encoding/json"
 	"fmt"
+	"os"
+	"path/filepath"
 	"strings"
 	"sync"
 	"time"
@@ -26,6 +28,7 @@ type c12Spec struct {
 	Backend string
 	Kind    string // race | cancel-scan | start-join
 	When    string // start-join: cancel "at-once" | "after-scan-began"
+	Corrupt bool   // start-join: a mailbox index is unreadable, so every scan fails
 	Bound   [2]int
 }
 
@@ -38,6 +41,7 @@ func c12Specs() []c12Spec {
 		{ID: "R2b-file-scan-cancel-after-2nd-callback", Backend: "file", Kind: "cancel-scan", When: "after-2", Bound: [2]int{2, 3}},
 		{ID: "R3-mem-start-join-cancel-at-once", Backend: "mem", Kind: "start-join", When: "at-once", Bound: [2]int{2, 3}},
 		{ID: "R3-file-start-join-cancel-after-scan-began", Backend: "file", Kind: "start-join", When: "after-scan-began", Bound: [2]int{2, 3}},
+		{ID: "R4-file-failing-scan-start-join", Backend: "file", Kind: "start-join", When: "after-scan-began", Corrupt: true, Bound: [2]int{2, 3}},
 		{ID: "R1-mem-scan-deliver-remove", Backend: "mem", Kind: "race", Bound: [2]int{2, 3}},
 		{ID: "R1-file-scan-deliver-remove", Backend: "file", Kind: "race", Bound: [2]int{1, 2}},
 	}
@@ -206,7 +210,18 @@ func c12SchedScenario(c *fw.Ctx, sp c12Spec) schedScenario {
 					return init, ths, func() { safely(final); cancel(); sh.Close() }
 				default: // start-join
 					vl := &visitLog{Store: st, began: make(chan struct{})}
-					init := func() { add("e1", "boxa", 2*time.Hour) }
+					init := func() {
+						add("e1", "boxa", 2*time.Hour)
+						if sp.Corrupt {
+							// an index that does not decode: VisitMailboxes, and with it every scan, fails
+							_ = filepath.Walk(sh.Dir, func(p string, info os.FileInfo, err error) error {
+								if err == nil && info.Name() == "index.gob" {
+									_ = os.WriteFile(p, []byte("this is not a gob stream"), 0o660)
+								}
+								return nil
+							})
+						}
+					}
 					rs := storage.NewRetentionScanner(config.Storage{RetentionPeriod: time.Hour, RetentionSleep: 0}, vl)
 					ths := []vsched.Thread{
 						{Name: "start", F: func() { rs.Start(ctx) }},
